@@ -30,12 +30,12 @@ ASSUMPTIONS = ["one machine, one numba/LLVM build; races are observed only as di
 def _configs(tier, seed):
     rng = np.random.default_rng(9_000 + seed)
     cfgs = []
-    kinds = ["screening", "plain_adaptive", "timedep_callable", "epsilon_callable", "fixed_holes"]
+    kinds = ["screening", "plain_adaptive", "four_terminals_callable", "timedep_callable", "epsilon_callable", "fixed_holes"]
     if tier == "quick":
-        kinds = kinds[:2]
+        kinds = kinds[:3]
     for name in kinds:
         scr = name == "screening"
-        nt = 2 if name in ("timedep_callable", "plain_adaptive") else 0
+        nt = 2 if name in ("timedep_callable", "plain_adaptive") else (4 if name == "four_terminals_callable" else 0)
         dev = zoo.gen_device(rng, n_terminals=nt, n_holes=1 if name == "fixed_holes" else 0, probes=2 if nt else 0, size="small" if not scr else "tiny", smooth=int(rng.choice([0, 5])))
         if scr:
             dev["layer"]["lam"], dev["layer"]["d"] = 2.0, 0.1
@@ -43,7 +43,7 @@ def _configs(tier, seed):
         if scr:
             o.update(max_iterations_per_step=3000, dt_max=0.02, solve_time=0.25)
         drive = {"A": S.field_spec(rng, dev, o, "ramp" if name == "timedep_callable" else "uniform", b=0.3),
-                 "currents": S.current_spec(rng, dev, o, {"timedep_callable": "callable", "plain_adaptive": "const"}.get(name, "none"), strength=0.2),
+                 "currents": S.current_spec(rng, dev, o, {"timedep_callable": "callable", "four_terminals_callable": "callable", "plain_adaptive": "const"}.get(name, "none"), strength=0.2),
                  "epsilon": {"kind": "spatial_novec" if name == "epsilon_callable" else "one"}}
         cfgs.append({"name": name, "device": dev, "options": o, "drive": drive})
     return cfgs
